@@ -1,7 +1,7 @@
 (* C09, calibration-file half: error classes of the loader model and well-formedness of what it accepts. *)
 Require Import ZArith List Bool String QArith.
 Import ListNotations.
-Require Import LV.CalFile.CalFileModel LV.CalFile.CalFileProofs.
+Require Import LV.CalFile.CalFileModel LV.CalFile.CalFileProofs LV.CalFile.CalLoadWf.
 Open Scope Z_scope.
 
 (* Termination of the model needs no theorem: [load] is a Gallina function defined by structural
@@ -24,16 +24,18 @@ Theorem load_errors_after_version : forall v ver d e, version_of v = Ok ver -> l
 Proof. exact load_version_ok_errors. Qed.
 Print Assumptions load_errors_after_version.
 
-(* load_ok_wf_partial: every calibration of an accepted document has dimensions that fit its type,
-   as many data entries as declared and strictly ascending frequencies.  Missing for the full
-   load_ok_wf: "every error-term cell is written" is proved for the documents the saver model builds
-   (emit_parse_terms / save_load_doc of Properties_C07.v: all types, all dimensions), not for an arbitrary
-   accepted tree; there it is checked on every tie input by evaluating wf_cells on the model's result. *)
-Theorem load_ok_wf_partial : forall v d cals, load v d = Ok cals -> Forall (fun c => wf_shape c = true) cals.
-Proof. exact load_ok_wf_shape. Qed.
-Print Assumptions load_ok_wf_partial.
+(* load_ok_wf: every calibration of an accepted document - any version line the loader accepts, any node
+   tree - is well formed (wf_cal): dimensions that fit its type, non-negative dimensions, as many data
+   entries as declared, strictly ascending frequencies (wf_shape), and EVERY error-term cell of every
+   frequency written (wf_cells: the cell vector has the length the layout says and no cell is left
+   unwritten).  For the cells: the indices a parser writes depend only on the shape it accepts, so the
+   coverage proved for the saver's documents (CalSaveProofs.entry_ok, all types and dimensions) carries
+   over to every accepted tree; the version 0 "e" triples are covered directly (CalFile/CalLoadWf.v). *)
+Theorem load_ok_wf : forall v d cals, load v d = Ok cals -> Forall (fun c => wf_cal c = true) cals.
+Proof. exact load_ok_wf_cal. Qed.
+Print Assumptions load_ok_wf.
 
-(* the hypothesis is met by a three-frequency document, whose result is completely well formed *)
+(* the hypothesis is met by a three-frequency document *)
 Theorem load_ok_wf_satisfiable :
   match load (VNew 1 0) (Some (t8_doc [1#1; 2#1; 5#2])) with
   | Ok [c] => wf_cal c = true /\ c_freqs c = 3
